@@ -104,6 +104,15 @@ func (g *genState) create(paused bool, mode int) {
 func genC29(r *rand.Rand) *Script {
 	g := &genState{r: r, manual: r.Intn(10) < 6}
 	s := &Script{Alpha: randomFiles(r, 4), Beta: randomFiles(r, 2), Delays: randomDelays(r)}
+	if r.Intn(4) == 0 {
+		// one Transition call fails outright at some point
+		side := "beta"
+		if r.Intn(3) == 0 {
+			side = "alpha"
+		}
+		s.FailTx = map[string]int{side: 1 + r.Intn(2)}
+		s.FailTxAfter = r.Intn(2) == 0
+	}
 	mode := 0
 	if r.Intn(6) == 0 {
 		mode = 1 + r.Intn(4)
@@ -218,6 +227,29 @@ func fixedC29() []*Script {
 			{K: "edit", Edit: "write", Side: "beta", Name: "a", Content: "x"}, {K: "reset"}, {K: "settle"}, sync,
 			{K: "pause"}, {K: "reset"}, {K: "resume"}, {K: "settle"}, sync}})
 	}
+	// an endpoint's Transition call fails outright while a waiting flush is
+	// pending: the flush must not report success; the loop reconnects and the
+	// next flush completes the work
+	for _, after := range []bool{false, true} {
+		out = append(out, &Script{Alpha: copyFiles(files), FailTx: map[string]int{"beta": 1}, FailTxAfter: after, Ops: []Op{
+			{K: "create", Watch: "manual"}, {K: "settle"}, {K: "flush", Wait: true}, {K: "settle"},
+			{K: "flush", Wait: true}, {K: "flush", Wait: true}, {K: "terminate"}}})
+		out = append(out, &Script{Beta: copyFiles(files), FailTx: map[string]int{"alpha": 1}, FailTxAfter: after, Ops: []Op{
+			{K: "create", Watch: "manual"}, {K: "settle"}, {K: "flush", Wait: true}, {K: "settle"},
+			{K: "pause"}, {K: "resume"}, {K: "settle"}, {K: "flush", Wait: true}}})
+	}
+	// both endpoints have changes to apply, one of them fails (the other's
+	// results are saved before the loop ends); second cycle of the session
+	out = append(out, &Script{Alpha: map[string]string{"a": "1"}, Beta: map[string]string{"b": "2"},
+		FailTx: map[string]int{"alpha": 2}, Ops: []Op{
+			{K: "create", Watch: "manual"}, {K: "settle"}, {K: "flush", Wait: true},
+			{K: "edit", Edit: "write", Side: "alpha", Name: "x", Content: "x"},
+			{K: "edit", Edit: "write", Side: "beta", Name: "y", Content: "y"},
+			{K: "flush", Wait: true}, {K: "settle"}, {K: "flush", Wait: true}, {K: "restart"}, {K: "settle"}, {K: "flush", Wait: true}}})
+	// watching session: the first cycle fails, the loop reconnects by itself
+	out = append(out, &Script{Alpha: copyFiles(files), FailTx: map[string]int{"beta": 1}, Ops: []Op{
+		{K: "create", Watch: "portable"}, {K: "settle"}, {K: "await"}, {K: "flush", Wait: true},
+		{K: "edit", Edit: "write", Side: "alpha", Name: "x", Content: "x"}, {K: "await"}, {K: "flush", Wait: true}}})
 	// created paused, flushed while paused, resumed
 	out = append(out, &Script{Alpha: copyFiles(files), Ops: []Op{
 		{K: "create", Watch: "manual", Paused: true}, {K: "flush", Wait: true}, {K: "flush"}, {K: "restart"}, {K: "reset"},
